@@ -7,6 +7,49 @@ use crate::Modulus;
 use crate::verif_v::Lit;
 impl Lit for MultiplyU64ModOperand { fn lit(&self) -> String { format!("crate::util::MultiplyU64ModOperand {{ operand: {}, quotient: {} }}", self.operand.lit(), self.quotient.lit()) } }
 
+/// Native oracle for engine M: evaluates the REAL functions on concrete vectors read from /verif/.build/oracle_in.txt
+/// (one request per line: `<function> <modulus> <args...>`) and writes one result line each to oracle_out.txt.
+#[cfg(all(not(kani), test))]
+mod oracle {
+    use super::*;
+    #[test]
+    fn verif_oracle() {
+        let inp = match std::fs::read_to_string("/verif/.build/oracle_in.txt") { Ok(s) => s, Err(_) => return };
+        let mut out = String::new();
+        for line in inp.lines() {
+            let p: Vec<&str> = line.split_whitespace().collect();
+            if p.is_empty() { continue; }
+            let n = |i: usize| p[i].parse::<u128>().unwrap();
+            let u = |i: usize| n(i) as u64;
+            let r: String = std::panic::catch_unwind(|| {
+                let m = if p[1] == "-" { Modulus::default() } else { Modulus::new(p[1].parse::<u64>().unwrap()) };
+                match p[0] {
+                    "add_u64_mod" => add_u64_mod(u(2), u(3), &m).to_string(),
+                    "sub_u64_mod" => sub_u64_mod(u(2), u(3), &m).to_string(),
+                    "negate_u64_mod" => negate_u64_mod(u(2), &m).to_string(),
+                    "increment_u64_mod" => increment_u64_mod(u(2), &m).to_string(),
+                    "decrement_u64_mod" => decrement_u64_mod(u(2), &m).to_string(),
+                    "barrett_reduce_u64" => barrett_reduce_u64(u(2), &m).to_string(),
+                    "reduce" => m.reduce(u(2)).to_string(),
+                    "barrett_reduce_u128" => barrett_reduce_u128(&[u(2), u(3)], &m).to_string(),
+                    "multiply_u64operand_mod" => multiply_u64operand_mod(u(2), &MultiplyU64ModOperand::new(u(3), &m), &m).to_string(),
+                    "multiply_u64operand_mod_lazy" => multiply_u64operand_mod_lazy(u(2), &MultiplyU64ModOperand::new(u(3), &m), &m).to_string(),
+                    "multiply_u64operand_add_u64_mod" => multiply_u64operand_add_u64_mod(u(2), &MultiplyU64ModOperand::new(u(3), &m), u(4), &m).to_string(),
+                    "set_quotient" => MultiplyU64ModOperand::new(u(2), &m).quotient.to_string(),
+                    "add_u64" => { let mut t = 0; let c = util::add_u64(u(2), u(3), &mut t); format!("{} {}", c, t) }
+                    "add_u64_carry" => { let mut t = 0; let c = util::add_u64_carry(u(2), u(3), u(4) as u8, &mut t); format!("{} {}", c, t) }
+                    "sub_u64" => { let mut t = 0; let c = util::sub_u64(u(2), u(3), &mut t); format!("{} {}", c, t) }
+                    "sub_u64_borrow" => { let mut t = 0; let c = util::sub_u64_borrow(u(2), u(3), u(4) as u8, &mut t); format!("{} {}", c, t) }
+                    "multiply_u64_high_word" => { let mut t = 0; util::multiply_u64_high_word(u(2), u(3), &mut t); t.to_string() }
+                    _ => "unknown".to_string(),
+                }
+            }).unwrap_or_else(|_| "panic".to_string());
+            out += &r; out.push('\n');
+        }
+        std::fs::write("/verif/.build/oracle_out.txt", out).unwrap();
+    }
+}
+
 #[cfg(kani)]
 mod proofs {
     use super::*;
@@ -185,6 +228,7 @@ mod proofs {
     // @funcs barrett_reduce_u128, multiply_u64_mod, multiply_add_u64_mod, MultiplyU64ModOperand::new, multiply_u64operand_mod, multiply_u64operand_mod_lazy
     #[kani::proof]
     fn c08_barrett128_mulop_family_all() { let c: bool = kani::any(); if c { with_modulus(pick_all(), body_barrett128) } else { with_modulus(pick_all(), body_mulop) } }
+
 
     #[cfg(test)] include!("/verif/.build/playback/util_uintsmallmod_v.rs");
 }
